@@ -15,6 +15,7 @@
 #include <iostream>
 #include <cmath>
 #include "libecpint.hpp"
+#include "mathutil.hpp"
 
 namespace vh {
 using namespace libecpint;
